@@ -140,6 +140,9 @@ impl<Point: Coordinate+Coordinate2D> GraphPath<Point, PathLabel> {
                 // Overlapping edges need special treatment
                 let collisions      = group_overlapped_collisions(self as &Self, collisions);
 
+                #[cfg(flo_curves_verif)]
+                verif_trace::push(verif_trace::Event::RayStart(next_edge.start_idx, next_edge.edge_idx));
+
                 // Work out which edges are interior or exterior for every edge the ray has crossed
                 for overlapping_group in collisions {
                     // Re-order overlapping edges according to whether or not the ray is inside the shape or not
@@ -168,6 +171,15 @@ impl<Point: Coordinate+Coordinate2D> GraphPath<Point, PathLabel> {
 
                     // Determine if the ray is already inside or outside of the path
                     let was_inside = is_inside(&path_crossings);
+
+                    #[cfg(flo_curves_verif)]
+                    verif_trace::push(verif_trace::Event::Group(overlapping_group.iter().map(|(collision, curve_t, _, _)| {
+                        let edge = collision.edge();
+                        let PathLabel(label) = self.edge_label(edge);
+                        let normal = self.get_edge(edge).normal_at_pos(*curve_t);
+                        let side = ray_direction.dot(&normal).signum() as i32;
+                        (edge.start_idx, edge.edge_idx, label, side, *curve_t, collision.is_intersection())
+                    }).collect()));
 
                     // Process the edges in the group
                     for (collision, curve_t, _line_t, _pos) in overlapping_group.iter() {
@@ -206,12 +218,18 @@ impl<Point: Coordinate+Coordinate2D> GraphPath<Point, PathLabel> {
                     if was_inside ^ is_inside {
                         // If the ray moved from outside to inside or vice-versa, set one of the edges as an exterior edge (doesn't matter which one)
                         if let Some(first_edge) = edges_to_set.next() {
+                            #[cfg(flo_curves_verif)]
+                            verif_trace::push(verif_trace::Event::Set(first_edge.start_idx, first_edge.edge_idx, true));
                             self.set_edge_kind_connected(first_edge, GraphPathEdgeKind::Exterior);
                         }
+                        #[cfg(flo_curves_verif)]
+                        let edges_to_set = edges_to_set.inspect(|edge| verif_trace::push(verif_trace::Event::Set(edge.start_idx, edge.edge_idx, false)));
                         edges_to_set.for_each(|edge| self.set_edge_kind_connected(edge, GraphPathEdgeKind::Interior));
                     } else {
                         // If the ray is either still inside or outside the result, set all the edges to interior
                         edges_to_set.for_each(|edge| {
+                            #[cfg(flo_curves_verif)]
+                            verif_trace::push(verif_trace::Event::Set(edge.start_idx, edge.edge_idx, false));
                             test_assert!(self.edge_kind(edge) != GraphPathEdgeKind::Exterior);
 
                             self.set_edge_kind_connected(edge, GraphPathEdgeKind::Interior)
@@ -224,4 +242,32 @@ impl<Point: Coordinate+Coordinate2D> GraphPath<Point, PathLabel> {
             }
         }
     }
+}
+
+///
+/// (verification hook, only with `--cfg flo_curves_verif`) records the decisions taken by `set_edge_kinds_by_ray_casting`
+///
+#[cfg(flo_curves_verif)]
+pub mod verif_trace {
+    use std::cell::RefCell;
+
+    #[derive(Clone, Debug, PartialEq)]
+    pub enum Event {
+        /// A ray was cast at this edge (start_idx, edge_idx)
+        RayStart(usize, usize),
+        /// A group of collisions in processing order: (start_idx, edge_idx, label, side, curve_t, is_intersection)
+        Group(Vec<(usize, usize, u32, i32, f64, bool)>),
+        /// set_edge_kind_connected(edge, exterior?)
+        Set(usize, usize, bool),
+    }
+
+    thread_local! { static TRACE: RefCell<Option<Vec<Event>>> = RefCell::new(None); }
+
+    /// Starts recording on this thread
+    pub fn start() { TRACE.with(|t| *t.borrow_mut() = Some(vec![])); }
+
+    /// Stops recording and returns the events
+    pub fn take() -> Vec<Event> { TRACE.with(|t| t.borrow_mut().take().unwrap_or_default()) }
+
+    pub (crate) fn push(event: Event) { TRACE.with(|t| if let Some(events) = t.borrow_mut().as_mut() { events.push(event); }); }
 }
